@@ -6,7 +6,7 @@ ROOT = os.path.dirname(os.path.dirname(os.path.abspath(__file__)))
 BASELINE = "cd /repo && /venv/bin/python -m pytest -ra -q -p no:cacheprovider --timeout=900 --continue-on-collection-errors"
 
 COMMON_NOTE = ("Trusted: Lean 4.33 kernel; axioms propext, Classical.choice, Quot.sound only (audited per theorem on every run; no sorry, "
-               "native_decide, bv_decide or own axioms); the translators tools/extract.py (tables) and tools/pysrc2lean*.py (control logic of the parsers, the checksum, to_bytes(), the request loop, the configuration-item codec); the correspondence check (differential, sizes in the "
+               "native_decide, bv_decide or own axioms); the translators tools/extract.py (tables) and tools/pysrc2lean*.py (control logic of the parsers, the checksum, to_bytes(), the request loop, the configuration-item codec, the field codec); the correspondence check (differential, sizes in the "
                "evidence); the hand-written Spec/ transcription of the u-blox interface description. ")
 
 P = {
@@ -73,7 +73,10 @@ CFG = (" Source-level tie: CfgKeyData.from_key / pack / unpack and their helpers
        "tools/pysrc2lean_cfg.py -> Gen/Src.lean, Gen/SrcCfg.lean) and proved equal to the model (Proofs/SrcEquiv/CfgKeyData, CfgItem; TransferCfg).")
 PARSE = (" Source-level tie: the parser / checksum / to_bytes() control logic is translated from the Python AST on every run (tools/pysrc2lean.py -> Gen/Src.lean) "
          "and proved equal to the model (Proofs/SrcEquiv, Transfer*).")
-SRC = {'C04': SRV, 'C05': SRV, 'C06': SRV, 'C10': SRV, 'C12': SRV, 'C13': CFG, 'C14': CFG,
+TYP = (" Source-level tie: Item / Padding / CH pack and unpack and the Fields.pack / Fields.unpack loops of types.py are translated from the Python AST on every run "
+       "(tools/pysrc2lean_types.py -> Gen/SrcTypes.lean) and proved equal to the model's Kind.pack/unpack and Table.encode/decode (Proofs/SrcEquiv/Types; TransferTypes); "
+       "the field tables themselves are regenerated by tools/extract.py.")
+SRC = {'C07': TYP, 'C08': TYP, 'C04': SRV, 'C05': SRV, 'C06': SRV, 'C10': SRV, 'C12': SRV, 'C13': CFG, 'C14': CFG,
        'C01': PARSE, 'C02': PARSE, 'C03': PARSE, 'C09': PARSE, 'C11': PARSE, 'C15': PARSE, 'C16': PARSE, 'C18': PARSE}
 SRCTECH = ' + source-level translation (Python AST -> Lean) proved equal to the model'
 
